@@ -762,7 +762,9 @@ Notice(i, j) ==
                   [node EXCEPT ![i] = [@ EXCEPT !.ro = @ \ {j}, !.conn = @ \ {j},
                                                !.nextIdx = IF j \in DOMAIN @ THEN RemoveKey(@, j) ELSE @,
                                                !.matchIdx = IF j \in DOMAIN @ THEN RemoveKey(@, j) ELSE @,
-                                               !.roid = IF j \in DOMAIN @ THEN RemoveKey(@, j) ELSE @]]
+                                               !.roid = IF j \in DOMAIN @ THEN RemoveKey(@, j) ELSE @,
+                                               \* (a transfer to it stays behind under the dead connection's id, unreachable)
+                                               !.trans = IF j \in DOMAIN @ THEN RemoveKey(@, j) ELSE @]]
              ELSE [node EXCEPT ![i].conn = @ \ {j}]
   /\ UNCHANGED <<chan, alive, cbs, nexc, snaps>>
 
